@@ -82,3 +82,137 @@ Example ex_shared_check_order_invariant :
   check_subset_equality ex_self ex_other ex_mapping = Ok tt /\
   check_subset_equality ex_self ex_other_swapped ex_mapping = Ok tt.
 Proof. vm_compute. split; reflexivity. Qed.
+
+(* ---- sites: the sorted site table is a function of the set of site rows ---- *)
+Theorem sort_sites_order_invariant_lemma : forall ss1 ss2,
+  Permutation ss1 ss2 ->
+  (forall x y, In x ss1 -> In y ss1 -> s_pos x = s_pos y -> x = y) ->
+  map snd (isort site_le (index_from 0 ss1)) = map snd (isort site_le (index_from 0 ss2)).
+Proof.
+  intros ss1 ss2 P Dist.
+  assert (forall ss, StronglySorted (fun a b => s_pos a <= s_pos b) (map snd (isort site_le (index_from 0 ss)))) as SS.
+  { intros ss. apply Sorted_StronglySorted. { intros x y z; lia. }
+    apply sorted_site_pos. apply isort_sorted, site_le_total. }
+  assert (forall ss, Permutation (map snd (isort site_le (index_from 0 ss))) ss) as PP.
+  { intros ss. rewrite <- (index_from_snd ss 0) at 2. apply Permutation_map, isort_perm. }
+  apply (sorted_perm_eq (fun a b => s_pos a <= s_pos b)); auto.
+  - intros x y Hx Hy H1 H2. apply Dist; try lia; eapply Permutation_in; try apply PP; auto.
+  - rewrite PP, P. symmetry. apply PP.
+Qed.
+
+(* for the sorter as a whole: whatever the mutation tables and comparison, two site tables that
+   are permutations of each other (distinct positions) come out identical *)
+Theorem sorted_sites_order_invariant : forall mle1 mle2 ss1 ss2 ms1 ms2 ss1' ms1' ss2' ms2',
+  Permutation ss1 ss2 ->
+  (forall x y, In x ss1 -> In y ss1 -> s_pos x = s_pos y -> x = y) ->
+  sort_sites_mutations mle1 ss1 ms1 = Ok (ss1', ms1') ->
+  sort_sites_mutations mle2 ss2 ms2 = Ok (ss2', ms2') ->
+  ss1' = ss2'.
+Proof.
+  intros mle1 mle2 ss1 ss2 ms1 ms2 ss1' ms1' ss2' ms2' P Dist H1 H2.
+  unfold sort_sites_mutations in H1, H2.
+  destruct (mfold _ ms1 []) as [a1| | |]; cbn [bind] in H1; try discriminate.
+  destruct (mfold _ (isort mle1 (index_from 0 a1)) []) as [b1| | |]; cbn [bind] in H1; try discriminate.
+  destruct (mfold _ ms2 []) as [a2| | |]; cbn [bind] in H2; try discriminate.
+  destruct (mfold _ (isort mle2 (index_from 0 a2)) []) as [b2| | |]; cbn [bind] in H2; try discriminate.
+  inversion H1; inversion H2; subst. now apply sort_sites_order_invariant_lemma.
+Qed.
+
+(* ---- populations: subset / canonicalise order populations by first use, so the output is
+        invariant under a permutation of the population rows (ids renamed in the node table) ---- *)
+From TskVerif Require Import C14.SubsetInd C14.SubsetLoop C14.SubsetRows C14.SubsetMain C14.InverseProofs.
+
+Definition rename_ref (pi : Z -> Z) (x : Z) : Z := if x =? NULL then NULL else pi x.
+Definition rename_node_pop (pi : Z -> Z) (r : node) : node :=
+  mkN (n_flags r) (n_time r) (rename_ref pi (n_pop r)) (n_ind r) (n_md r).
+
+Section PopPerm.
+  Variables (pi : Z -> Z) (np : Z).
+  Hypothesis pi_inj : forall p q, in_range np p = true -> in_range np q = true -> pi p = pi q -> p = q.
+  Hypothesis pi_nonneg : forall p, in_range np p = true -> 0 <= pi p.
+
+  Lemma listed_map_pi l p :
+    forallb (in_range np) l = true -> in_range np p = true -> listed (map pi l) (pi p) = listed l p.
+  Proof.
+    induction l as [|x l IH]; intros F Rp; auto. cbn [forallb] in F. apply andb_true_iff in F as [F1 F2].
+    unfold listed in *. cbn [map existsb]. rewrite IH by auto. f_equal.
+    destruct (p =? x) eqn:E.
+    - apply Z.eqb_eq in E. subst. apply Z.eqb_refl.
+    - apply Z.eqb_neq. intros H. apply Z.eqb_neq in E. apply E. now apply pi_inj.
+  Qed.
+
+  Lemma first_uses_map_pi ps :
+    (forall p, In p ps -> ref_ok np p = true) ->
+    first_uses (map (rename_ref pi) ps) = map pi (first_uses ps) /\ forallb (in_range np) (first_uses ps) = true.
+  Proof.
+    induction ps as [|p ps IH] using rev_ind; intros H. { split; reflexivity. }
+    destruct IH as [I1 I2]. { intros; apply H; apply in_or_app; now left. }
+    rewrite map_app. cbn [map]. rewrite !first_uses_snoc, I1.
+    assert (ref_ok np p = true) as Hp by (apply H; apply in_or_app; right; now left).
+    unfold rename_ref. destruct (p =? NULL) eqn:E.
+    - assert (NULL =? NULL = true) as -> by reflexivity. cbn [orb]. auto.
+    - apply ref_ok_cases in Hp as [Hp|[_ Hp]]. { apply Z.eqb_neq in E. contradiction. }
+      assert (pi p =? NULL = false) as -> by (pose proof (pi_nonneg p Hp); rewrite NULL_neg'; lia).
+      cbn [orb]. rewrite listed_map_pi by auto.
+      destruct (listed (first_uses ps) p); [auto|].
+      rewrite map_app. cbn [map]. split; auto. rewrite forallb_app, I2. cbn [forallb]. now rewrite Hp.
+  Qed.
+
+  Lemma index_of_map_pi l p : forall k,
+    forallb (in_range np) l = true -> in_range np p = true -> index_of (pi p) (map pi l) k = index_of p l k.
+  Proof.
+    induction l as [|x l IH]; intros k F Rp; auto. cbn [forallb] in F. apply andb_true_iff in F as [F1 F2].
+    cbn [map index_of]. rewrite IH by auto.
+    destruct (x =? p) eqn:E.
+    - apply Z.eqb_eq in E. subst. now rewrite Z.eqb_refl.
+    - assert (pi x =? pi p = false) as ->; auto. apply Z.eqb_neq. intros H. apply Z.eqb_neq in E. apply E. now apply pi_inj.
+  Qed.
+
+  Lemma rows_of_map_pi {A} (rows rows2 : list A) l :
+    zlen rows = np ->
+    (forall p row, getz rows p = Ok row -> getz rows2 (pi p) = Ok row) ->
+    forallb (in_range np) l = true -> rows_of rows2 (map pi l) = rows_of rows l.
+  Proof.
+    intros L Hr. induction l as [|x l IH]; intros F; auto. cbn [forallb] in F. apply andb_true_iff in F as [F1 F2].
+    unfold rows_of. cbn [map flat_map]. fold (rows_of rows2 (map pi l)). fold (rows_of rows l). rewrite IH by auto.
+    rewrite <- L in F1. destruct (getz_in_range _ _ F1) as [row G]. now rewrite G, (Hr _ _ G).
+  Qed.
+End PopPerm.
+
+Theorem populations_order_invariant_lemma : forall t nodes pi pops2,
+  refs_in_range t = true ->
+  (forall p q, in_range (zlen (t_populations t)) p = true -> in_range (zlen (t_populations t)) q = true ->
+               pi p = pi q -> p = q) ->
+  (forall p, in_range (zlen (t_populations t)) p = true -> 0 <= pi p) ->
+  (forall p row, getz (t_populations t) p = Ok row -> getz pops2 (pi p) = Ok row) ->
+  let t2 := mkT (map (rename_node_pop pi) (t_nodes t)) (t_edges t) (t_sites t) (t_mutations t)
+                (t_individuals t) pops2 in
+  (* the retained population rows, in output order, are the same … *)
+  rows_of pops2 (pop_order t2 nodes) = rows_of (t_populations t) (pop_order t nodes) /\
+  (* … and every listed node gets the same new population id *)
+  (forall u r, node_row t u = Some r ->
+     remap_ref (pop_map t2 nodes false) (rename_ref pi (n_pop r)) = remap_ref (pop_map t nodes false) (n_pop r)).
+Proof.
+  intros t nodes pi pops2 R Inj Nn Hr. cbn zeta.
+  set (np := zlen (t_populations t)) in *.
+  set (t2 := mkT (map (rename_node_pop pi) (t_nodes t)) (t_edges t) (t_sites t) (t_mutations t) (t_individuals t) pops2).
+  assert (forall u, node_row t2 u = option_map (rename_node_pop pi) (node_row t u)) as NR.
+  { intros u. unfold node_row, t2. cbn [t_nodes]. unfold getz. rewrite zlen_map.
+    destruct (in_range (zlen (t_nodes t)) u) eqn:E; auto.
+    destruct (getz_in_range _ _ E) as [r G]. unfold getz in G. rewrite E in G.
+    pose proof (getz_map (rename_node_pop pi) (t_nodes t) u r) as X. unfold getz in X. rewrite zlen_map, E in X.
+    rewrite G. rewrite (X G). reflexivity. }
+  assert (node_pops t2 nodes = map (rename_ref pi) (node_pops t nodes)) as NP.
+  { unfold node_pops. rewrite map_map. apply map_ext. intros u. rewrite NR.
+    destruct (node_row t u); reflexivity. }
+  destruct (first_uses_map_pi pi np Inj Nn (node_pops t nodes) (node_pops_ok t nodes R)) as [F1 F2].
+  unfold pop_order. rewrite NP, F1. split.
+  - apply (rows_of_map_pi pi np); auto.
+  - intros u r Hu. unfold remap_ref, rename_ref, pop_map.
+    destruct (n_pop r =? NULL) eqn:E. { reflexivity. }
+    assert (In r (t_nodes t)) as Ir.
+    { unfold node_row in Hu. destruct (getz (t_nodes t) u) eqn:G; inversion Hu; subst. eapply getz_In; eauto. }
+    destruct (refs_nodes t R r Ir) as [Rp _]. apply ref_ok_cases in Rp as [Rp|[_ Rp]]. { apply Z.eqb_neq in E. contradiction. }
+    assert (pi (n_pop r) =? NULL = false) as -> by (pose proof (Nn _ Rp); rewrite NULL_neg'; lia).
+    unfold pop_order. rewrite NP, F1. now apply (index_of_map_pi pi np).
+Qed.
